@@ -155,10 +155,10 @@ func (e *Engine) intrinsic(name string, fn *ssa.Function, a []Value) Value {
 	case "Track":
 		e.watermark = e.nobj
 		e.tracking = true
-		e.writes = 0
+		e.changed = false
 		return nil
 	case "Changed":
-		return e.writes > 0
+		return e.changed
 	case "JSONInput":
 		return &Rope{P: []Piece{{Opq: true, What: "json", Doc: &JDoc{Kind: "input", Input: &JInput{Tag: e.name(str(a[0])), BadAt: -1}}}}}
 	case "Unsupported":
